@@ -1,0 +1,57 @@
+//go:build verif
+
+package routing
+
+import (
+	lunar_messages "lunar/engine/messages"
+	"lunar/engine/metrics"
+	"lunar/engine/runner"
+	"lunar/engine/streams"
+	stream_config "lunar/engine/streams/config"
+	stream_types "lunar/engine/streams/types"
+)
+
+// NewVerifStreamsManager builds a streams-mode HandlingDataManager for the
+// simulation harness: the same initializeStreams / reload path as Setup(), but
+// without the otel HTTP server, the syslog dial and the doctor.
+func NewVerifStreamsManager() (*HandlingDataManager, error) {
+	rd := &HandlingDataManager{isStreamsEnabled: true}
+	if err := rd.initializeStreams(); err != nil {
+		return nil, err
+	}
+	metricManager, err := metrics.NewMetricManager()
+	if err != nil {
+		return nil, err
+	}
+	rd.metricManager = metricManager
+	rd.metricManager.UpdateMetricsForFlow(rd.stream)
+	return rd, nil
+}
+
+// VerifStream returns the engine currently published to the message handler.
+func (rd *HandlingDataManager) VerifStream() *streams.Stream { return rd.stream }
+
+// VerifOnRequest runs the streams branch of processRequest for already decoded
+// arguments (the SPOE decoding is not part of the simulation).
+func (rd *HandlingDataManager) VerifOnRequest(
+	args lunar_messages.OnRequest,
+) (*stream_config.StreamActions, error) {
+	apiStream := stream_types.NewRequestAPIStream(args, sharedState)
+	rd.GetMetricManager().UpdateMetricsForAPICall(apiStream)
+	flowActions := &stream_config.StreamActions{Request: &stream_config.RequestStream{}}
+	err := runner.RunFlow(rd.stream, apiStream, flowActions)
+	rd.GetMetricManager().UpdateMetricsForFlow(rd.stream)
+	return flowActions, err
+}
+
+// VerifOnResponse is the response-side counterpart of VerifOnRequest.
+func (rd *HandlingDataManager) VerifOnResponse(
+	args lunar_messages.OnResponse,
+) (*stream_config.StreamActions, error) {
+	apiStream := stream_types.NewResponseAPIStream(args, sharedState)
+	rd.GetMetricManager().UpdateMetricsForAPICall(apiStream)
+	flowActions := &stream_config.StreamActions{Response: &stream_config.ResponseStream{}}
+	err := runner.RunFlow(rd.stream, apiStream, flowActions)
+	rd.GetMetricManager().UpdateMetricsForFlow(rd.stream)
+	return flowActions, err
+}
